@@ -22,7 +22,7 @@ RULE = ('encoder: every string of length <= L over {a, b, newline, A(non-table)}
 ASSUMPTIONS = ['the reference :c: decoder (lib/refcodec.py) is correct; it decodes the PICO-8-written test carts',
                'code texts contain no NUL and no CR (the raw code area is NUL-terminated; the reader maps CR to space)',
                'decoder search merges states with equal produced output: the decoder state is exactly that output']
-BOUNDS = {'quick': {'string_len': 8, 'decoder_depth': 5, 'window_cases': 9},
+BOUNDS = {'quick': {'string_len': 8, 'decoder_depth': 5, 'window_cases': 12},
           'thorough': {'string_len': 11, 'decoder_depth': 6, 'window_cases': 205}}
 
 ALPHA = [b'a', b'b', b'\n', b'A']
@@ -194,7 +194,8 @@ def window_text(dist, blen):
 
 def window_cases(tier):
     if tier == 'quick':
-        return [(d, b) for b in (16, 17, 18) for d in (WINDOW - 1, WINDOW, WINDOW + 1)]
+        return [(d, b) for b in (16, 17, 18) for d in (WINDOW - 1, WINDOW, WINDOW + 1)] + \
+               [(d, 17) for d in (WINDOW + 15, WINDOW + 16, WINDOW + 17)]
     return [(d, b) for b in range(15, 20) for d in range(3100, 3141)]
 
 
